@@ -183,3 +183,10 @@ Theorem C14_slice_is_the_regenerated_code : forall (A : Type) (time : A -> Z) l 
       <= length l)%nat.
 Proof. exact @decorated_list_slice_regen. Qed.
 Print Assumptions C14_slice_is_the_regenerated_code.
+
+(* the regenerated code itself is window-exact on every list in ascending time order *)
+Theorem C14_regenerated_slice_window_exact : forall (A : Type) (time : A -> Z) l st en ff,
+  tsorted time l -> window_wf st en ->
+  snd (cut l (gen_decorated_list_slice (map time l) st en ff)) = ffpre time ff st l ++ filter (wok time st en) l.
+Proof. exact @regenerated_slice_window_exact. Qed.
+Print Assumptions C14_regenerated_slice_window_exact.
